@@ -17,7 +17,8 @@ from harness.lib.core import Rng
 
 SQL = {"SELECT": "SELECT", "DELETE": "DELETE", "ENCRYPT": "ENCRYPT", "INSERT": "INSERT",
        "PGSTAT": "SELECT * FROM pg_stat_activity", "OTHER": "DROP TABLE users"}
-SVC_REQS = ["stop", "start", "pause", "resume", "restart", "disable", "enable", "fix", "compromise"]
+SVC_REQS = ["stop", "start", "pause", "resume", "restart", "disable", "enable", "fix", "compromise", "scan"]
+JUNK = {"notdict": "hello", "notype": {"sql": "SELECT", "connection_id": None}, "unknown": {"type": "ping", "sql": "SELECT"}}
 SERVER_IP, BACKUP_IP = "10.0.2.10", "10.0.3.10"
 BIG = 10 ** 7  # link bandwidth (Mbit): link saturation belongs to C18, not to this rig
 
@@ -40,6 +41,8 @@ def model_lines(case: dict) -> List[str]:
         lines.append(f"cfg {i} {o(c['pw'])} {1 if c['rs'] else 0} {o(c['rs_pw'])} {1 if c.get('dm') else 0} {o(c.get('dm_pw'))} "
                      f"{1 if c.get('dm_repeat', True) else 0}")
     for op in case["ops"]:
+        if op[0] == "dmp":   # the bot with probabilities strictly between 0 and 1: the trial outcomes (predicted from the seed) are the model's inputs
+            op = ["dm", op[1], op[2], op[7], op[8], op[6]]
         lines.append(" ".join(o(x) if x is None else (("1" if x else "0") if isinstance(x, bool) else str(x)) for x in op))
     return lines
 
@@ -52,6 +55,7 @@ class Rec:
         self.handles: List[Any] = []
         self.drops: List[tuple] = []     # (source ip, refused by the sender's own link?) of file-transfer frames refused for capacity
         self.small_drops: int = 0        # any other frame refused for capacity (the saturation abstraction does not cover it)
+        self.trials: List[bool] = []     # outcomes of the data-manipulation bot's Bernoulli trials while the op ran
 
 
 @contextmanager
@@ -62,6 +66,13 @@ def instrumented(rec: Rec):
     from primaite.simulator.network.hardware.base import Link
     o_send, o_gen, o_create = DatabaseService.send, DatabaseService._generate_connection_id, DatabaseClient._create_client_connection
     o_can = Link.can_transmit_frame
+    from primaite.simulator.system.applications.red_applications import data_manipulation_bot as dmb
+    o_trial = dmb.simulate_trial
+
+    def trial(p):
+        r = o_trial(p)
+        rec.trials.append(bool(r))
+        return r
 
     def can(self, frame):
         r = o_can(self, frame)
@@ -91,9 +102,11 @@ def instrumented(rec: Rec):
 
     DatabaseService.send, DatabaseService._generate_connection_id, DatabaseClient._create_client_connection = send, gen, create
     Link.can_transmit_frame = can
+    dmb.simulate_trial = trial
     try:
         yield
     finally:
+        dmb.simulate_trial = o_trial
         DatabaseService.send, DatabaseService._generate_connection_id, DatabaseClient._create_client_connection = o_send, o_gen, o_create
         Link.can_transmit_frame = o_can
 
@@ -114,8 +127,11 @@ class World:
         from primaite.utils.validation.ip_protocol import PROTOCOL_LOOKUP
         from primaite.utils.validation.port import PORT_LOOKUP
         self.IPv4Address, self.ACLAction, self.DatabaseClient = IPv4Address, ACLAction, DatabaseClient
+        from primaite.simulator.system.services.ftp.ftp_client import FTPClient
+        self.DatabaseService, self.FTPClient = DatabaseService, FTPClient
         self.rec = rec
         self.t = 0
+        self.looped = False
         d = case["durs"]
         n = len(case["clients"])
         net = Network()
@@ -229,9 +245,10 @@ class World:
         ftpc = sw.software.get("ftp-client")
         port = inst and any(v is db for v in sw.port_protocol_mapping.values())
         svc = f"{db.operating_state.name},{db.health_state_actual.name}" if inst else "absent,absent"
+        fcs = "-" if ftpc is None else f"{ftpc.operating_state.name}:{ftpc.health_state_actual.name}"
         parts = [f"srv:{srv.operating_state.name},{svc},{fh(db.db_file)},"
                  f"{fh(srv.file_system.get_file('downloads', 'database.db'))},[{conns}],"
-                 f"ftpc={'-' if ftpc is None else ftpc.operating_state.name},port={1 if port else 0}"]
+                 f"ftpc={fcs},port={1 if port else 0},dl={1 if srv.file_system.get_folder('downloads') is not None else 0}"]
         ftps = bk.software_manager.software["ftp-server"]
         parts.append(f"bk:{bk.operating_state.name},{ftps.operating_state.name},{fh(bk.file_system.get_file(str(db.uuid), 'database.db'))}")
         for i, c in enumerate(self.clients):
@@ -263,10 +280,13 @@ class World:
         rec.statuses = []
         rec.drops = []
         rec.small_drops = 0
+        rec.trials = []
         inst = self.srv.software_manager.software.get("database-service") is self.db
         res: Optional[bool] = None
         handle = None
         rej = False
+        raised = False
+        rng_note = ""
         k = op[0]
         if k == "connect":
             dc = self.dc(op[1])
@@ -288,6 +308,76 @@ class World:
                 dc.software_manager.send_payload_to_session_manager(
                     payload={"type": "disconnect", "connection_id": self.cid(op[2])},
                     dest_ip_address=self.IPv4Address(SERVER_IP), dest_port=dc.port)
+        elif k == "rj":
+            dc = self.dc(op[1])
+            if dc is None:
+                rej = True
+            else:
+                import copy
+                dc.software_manager.send_payload_to_session_manager(
+                    payload=copy.deepcopy(JUNK[op[2]]), dest_ip_address=self.IPv4Address(SERVER_IP), dest_port=dc.port)
+        elif k == "dl":
+            from primaite.simulator.file_system.file_system_item_abc import FileSystemItemHealthStatus as FH
+            fs = self.srv.file_system
+            a = op[1]
+            f = fs.get_file("downloads", "database.db")
+            if a == "del":
+                res = bool(fs.delete_file("downloads", "database.db"))
+            elif a in ("cor", "rep"):
+                if f is None:
+                    rej = True
+                else:
+                    res = bool(f.corrupt() if a == "cor" else f.repair())
+            elif a == "fodel":
+                res = bool(fs.delete_folder("downloads"))
+            elif a == "plant":
+                try:
+                    nf = fs.create_file(folder_name="downloads", file_name="database.db")
+                    nf.health_status = FH[op[2]]
+                    res = True
+                except Exception as e:  # noqa: BLE001 - `create_file` raises on an existing name
+                    if "already exists" not in str(e):
+                        raise
+                    rej = True
+            else:
+                raise ValueError(f"unknown op {op}")
+        elif k == "svcin":
+            sm = self.srv.software_manager
+            old = sm.software.get("database-service")
+            try:
+                if len(op) > 1:
+                    sm.install(self.DatabaseService, self.DatabaseService.ConfigSchema(
+                        db_password=pw_str(op[1]), backup_server_ip=self.IPv4Address(BACKUP_IP) if op[2] else None))
+                else:
+                    sm.install(self.DatabaseService)
+                new = sm.software.get("database-service")
+                if new is None or new is old:
+                    rej = True
+                else:
+                    self.db = new
+                    res = True
+            except Exception as e:  # noqa: BLE001 - the constructor raises while a live database.db exists
+                if "already exists" not in str(e):
+                    raise
+                raised = True
+        elif k == "co":
+            co = self.srv.software_manager.software.get("database-client")
+            try:
+                if co is None:
+                    rej = True
+                elif op[1] == 0:
+                    res = co.get_new_connection() is not None
+                elif op[1] == 1:
+                    res = bool(co.query("SELECT"))
+                else:
+                    res, rej = self.req(self.srv.apply_request(["application", "database-client", "execute"]))
+            except (RecursionError, Exception) as e:  # noqa: BLE001
+                # the service answers its own answers for ever (it owns port 5432 on the host the client addresses): the call
+                # does not return. Explicit outcome; the state afterwards is not compared and the trace ends here.
+                if isinstance(e, RecursionError) or "recursion" in str(e).lower():
+                    self.looped = True
+                    return "res=- h=- st=[] rej=R | LOOP"
+                raise
         elif k == "hq":
             if op[1] >= len(rec.handles):
                 rej = True
@@ -378,6 +468,23 @@ class World:
             elif op[1] == "bkcfg":
                 self.db.backup_server_ip = self.IPv4Address(BACKUP_IP) if op[2] else None
                 res = True
+            elif op[1] == "ftpcin":
+                old = sm.software.get("ftp-client")
+                if op[2]:
+                    sm.install(self.FTPClient, self.FTPClient.ConfigSchema())
+                else:
+                    sm.install(self.FTPClient)
+                if sm.software.get("ftp-client") is old:
+                    rej = True
+                else:
+                    res = True
+            elif op[1] == "corun":
+                co = sm.software.get("database-client")
+                if co is None:
+                    rej = True
+                else:
+                    co.run()
+                    res = True
             elif op[1] == "coin":
                 if "database-client" in sm.software:
                     rej = True
@@ -400,6 +507,41 @@ class World:
                     res, rej = self.req(self.clients[op[1]].apply_request(["application", "data-manipulation-bot", "execute"]))
                 else:
                     res = bool(bot.attack())
+        elif k == "dmp":
+            # the bot with probabilities strictly between 0 and 1 through the seeded `random` module: the outcomes are
+            # PREDICTED from the seed (first draw = port scan if the stage after logon is LOGON, next draw = attack if the
+            # stage is then PORT_SCAN) and fed to the model; the draws the real `simulate_trial` made must be a prefix of them
+            import random
+            bot = self.clients[op[1]].software_manager.software.get("data-manipulation-bot") if op[1] < len(self.clients) else None
+            ps, pa = op[4] / 1000.0, op[5] / 1000.0
+            if bot is None:
+                rej = True
+                op[7:] = [False, False]
+            else:
+                stage = int(bot.attack_stage)
+                s1 = 1 if stage == 0 else stage
+                pr = random.Random(op[3])
+                scan = atk = False
+                expect = []
+                if s1 == 1:
+                    scan = pr.random() < ps
+                    expect.append(scan)
+                    if scan:
+                        atk = pr.random() < pa
+                        expect.append(atk)
+                elif s1 == 2:
+                    atk = pr.random() < pa
+                    expect.append(atk)
+                op[7:] = [scan, atk]
+                bot.payload = SQL[op[2]]
+                bot.port_scan_p_of_success, bot.data_manipulation_p_of_success = ps, pa
+                random.seed(op[3])
+                if op[6]:
+                    res, rej = self.req(self.clients[op[1]].apply_request(["application", "data-manipulation-bot", "execute"]))
+                else:
+                    res = bool(bot.attack())
+                if rec.trials != expect[:len(rec.trials)]:   # (fewer draws than predicted: the kill chain stopped earlier, e.g. no host client)
+                    rng_note = f" UNMODELLED-RNG:{rec.trials}!={expect}"
         elif k == "rsx":
             rs = self.clients[op[1]].software_manager.software.get("ransomware-script") if op[1] < len(self.clients) else None
             if rs is None:
@@ -438,8 +580,8 @@ class World:
             raise ValueError(f"unknown op {op}")
         sts = ",".join(str(s) for s in rec.statuses if s is not None)
         r = "-" if res is None else ("1" if res else "0")
-        extra = f" UNMODELLED-DROP:{rec.small_drops}" if rec.small_drops else ""
-        return f"res={r} h={o(handle)} st=[{sts}] rej={1 if rej else 0}{extra} | {self.digest()}"
+        extra = (f" UNMODELLED-DROP:{rec.small_drops}" if rec.small_drops else "") + rng_note
+        return f"res={r} h={o(handle)} st=[{sts}] rej={'R' if raised else (1 if rej else 0)}{extra} | {self.digest()}"
 
 
 def run_impl(case: dict) -> List[str]:
@@ -457,23 +599,41 @@ def run_impl(case: dict) -> List[str]:
             except Exception as e:  # noqa: BLE001 - any exception out of the implementation is an observable
                 out.append(f"raised {type(e).__name__}: {str(e)[:120]}")
                 break
+            if w.looped:
+                break
     return out
 
 
+def align(impl: List[str], model: List[str]) -> List[str]:
+    """The one outcome whose state is not compared: a call that does not return (`| LOOP`, see `World.do` / `step (.co k)`).
+    The model's line for that op must be the explicit outcome `rej=R`; the model's lines after it are dropped."""
+    for j, a in enumerate(impl):
+        if a.endswith("| LOOP") and j < len(model) and model[j].split(" | ")[0] == a.split(" | ")[0]:
+            return model[:j] + [a]
+    return model
+
+
 # ------------------------------------------------------------------------------------------ generation
-PROFILES = ["mixed", "mixed", "capacity", "damage", "faults", "lifecycle", "red", "saturation", "admin"]
-BASE_W = {"connect": 16, "hq": 18, "rq": 7, "rd": 3, "hd": 6, "nc": 3, "nq": 5, "nd": 2, "ex": 5, "un": 2, "in": 2, "run": 3,
-          "close": 2, "cpw": 4, "rs": 3, "rsx": 2, "dm": 4, "svc": 10, "spw": 2, "backup": 4, "restore": 6, "fdel": 1, "fcor": 2,
-          "frep": 2, "fodel": 1, "bkdel": 1, "adm": 2, "pow": 4, "ftps": 2, "blk": 5, "tick": 12}
+PROFILES = ["mixed", "mixed", "capacity", "damage", "faults", "lifecycle", "red", "saturation", "admin", "restore", "restore", "reinstall"]
+BASE_W = {"connect": 16, "hq": 18, "rq": 7, "rd": 3, "rj": 2, "hd": 6, "nc": 3, "nq": 5, "nd": 2, "ex": 5, "un": 2, "in": 2, "run": 3,
+          "close": 2, "cpw": 4, "rs": 3, "rsx": 2, "dm": 4, "dmp": 2, "svc": 10, "spw": 2, "backup": 4, "restore": 6, "fdel": 1, "fcor": 2,
+          "frep": 2, "fodel": 1, "bkdel": 1, "adm": 2, "dl": 2, "svcin": 1, "co": 1, "pow": 4, "ftps": 2, "blk": 5, "tick": 12}
 PROFILE_W = {
     "mixed": {},
     "capacity": {"connect": 40, "hd": 14, "nd": 4, "svc": 6, "restore": 8, "nc": 6},
     "damage": {"hq": 30, "backup": 8, "restore": 12, "fdel": 3, "fcor": 4, "frep": 4, "tick": 14, "svc": 12, "rs": 8},
     "faults": {"pow": 12, "blk": 14, "ftps": 5, "tick": 20, "un": 4, "in": 4, "close": 4, "run": 5},
     "lifecycle": {"svc": 30, "tick": 20, "cpw": 8, "spw": 5},
-    "red": {"rs": 12, "rsx": 8, "dm": 24, "rq": 10, "rd": 6, "restore": 10, "tick": 14, "cpw": 6},
+    "red": {"rs": 12, "rsx": 8, "dm": 20, "dmp": 16, "rq": 10, "rd": 6, "rj": 5, "restore": 10, "tick": 14, "cpw": 6},
     "saturation": {"backup": 22, "restore": 30, "bkdel": 8, "tick": 8, "hq": 12, "svc": 8, "blk": 3, "pow": 2},
-    "admin": {"adm": 22, "backup": 10, "restore": 14, "fodel": 4, "bkdel": 5, "fdel": 2, "tick": 14, "pow": 6, "hq": 14},
+    "admin": {"adm": 22, "backup": 10, "restore": 14, "fodel": 4, "bkdel": 5, "fdel": 2, "tick": 14, "pow": 6, "hq": 14, "dl": 5, "co": 3},
+    # repeated backup / damage / restore cycles with leftovers in downloads/, the backup path blocked in either direction,
+    # the backup host off, its FTP server stopped, the FTP client restarting
+    "restore": {"backup": 14, "restore": 34, "dl": 18, "hq": 16, "blk": 9, "pow": 5, "ftps": 5, "bkdel": 4, "fcor": 3, "frep": 2,
+                "fdel": 2, "fodel": 1, "svc": 9, "tick": 12, "adm": 6, "connect": 8},
+    # re-installing the database service / the FTP client at run time, the co-located client
+    "reinstall": {"svcin": 16, "fdel": 7, "fodel": 4, "adm": 14, "connect": 18, "hq": 14, "rq": 8, "backup": 8, "restore": 10,
+                  "tick": 14, "co": 6, "bkdel": 2, "dl": 3},
 }
 # bandwidth (Mbit) of the two server-side links: the database file is 38.15 Mbit, so 30 never carries it, 40 once per
 # tick, 80 twice per tick; None = wide links (saturation impossible)
@@ -523,7 +683,9 @@ def next_op(rng: Rng, w: "World", case: dict, W: dict, total: int) -> list:
             fc = w.srv.software_manager.software.get("ftp-client")
             if fc is not None:
                 fixes += {"STOPPED": [["adm", "ftpc", "start"]], "PAUSED": [["adm", "ftpc", "resume"]],
-                          "DISABLED": [["adm", "ftpc", "enable"]]}.get(fc.operating_state.name, [])
+                          "DISABLED": [["adm", "ftpc", "enable"]], "RESTARTING": [["tick"]]}.get(fc.operating_state.name, [])
+            else:
+                fixes.append(["adm", "ftpcin", False])
             if w.db.backup_server_ip is None:
                 fixes.append(["adm", "bkcfg", True])
         for pos in range(2 + 2 * n):
@@ -589,16 +751,43 @@ def next_op(rng: Rng, w: "World", case: dict, W: dict, total: int) -> list:
                 rng.chance(3, 4), rng.chance(3, 4), rng.chance(1, 3)]
     if k in ("fodel", "bkdel"):
         return [k]
+    if k == "rj":
+        return ["rj", i, rng.choice(["notdict", "notype", "unknown"])]
+    if k == "dl":
+        return ["dl", "plant", rng.choice(["GOOD", "CORRUPT", "COMPROMISED"])] if rng.chance(1, 4) else ["dl", rng.choice(["del", "cor", "cor", "rep", "fodel"])]
+    if k == "svcin":
+        # a re-install succeeds only while there is no live database.db: often delete it first
+        if w.db.db_file is not None and rng.chance(1, 2):
+            return [rng.choice(["fdel", "fdel", "fodel"])]
+        absent = w.srv.software_manager.software.get("database-service") is None
+        if not absent and rng.chance(1, 6):
+            return ["adm", "svcun"]     # a bare install goes through only while the service is uninstalled
+        return ["svcin"] if rng.chance(3, 4 if absent else 16) else ["svcin", rng.choice(pws), rng.chance(3, 4)]
+    if k == "co":
+        if "database-client" not in w.srv.software_manager.software and not wild:
+            return ["adm", "coin"]
+        if rng.chance(1, 4):
+            return ["adm", "corun"]
+        return ["co", rng.below(3)]
+    if k == "dmp":
+        with_dm = [j for j, c in enumerate(case["clients"]) if c.get("dm")]
+        return ["dmp", rng.choice(with_dm) if with_dm and not wild else i, rng.choice(["DELETE", "DELETE", "ENCRYPT", "SELECT"]),
+                rng.below(1 << 30), rng.choice([100, 300, 500, 700, 900]), rng.choice([100, 300, 500, 700, 900]), rng.chance(1, 3), False, False]
     if k == "adm":
-        x = rng.below(20)
+        x = rng.below(24)
+        if x >= 20:
+            return ["adm", "ftpcin", rng.chance(1, 2)]
         if x < 9:
-            return ["adm", "ftpc", rng.choice(["stop", "start", "stop", "start", "pause", "resume", "disable", "enable"])]
+            return ["adm", "ftpc", rng.choice(["stop", "start", "stop", "start", "pause", "resume", "disable", "enable", "restart", "restart",
+                                               "fix", "scan"])]
         if x < 12:
             return ["adm", "bkcfg", rng.chance(1, 2)]
         if x < 15:
             return ["adm", "coin"]
-        if x < 18:
+        if x < 17:
             return ["adm", "coun"]
+        if x < 18:
+            return ["adm", "corun"]
         return ["adm", rng.choice(["ftpcun", "svcun"])]
     if k == "svc":
         return ["svc", rng.choice(SVC_REQS + ["fix", "start", "stop", "compromise"])]
@@ -644,7 +833,189 @@ def gen_and_run(rng: Rng, max_ops: int = 40):
             except Exception as e:  # noqa: BLE001
                 out.append(f"raised {type(e).__name__}: {str(e)[:120]}")
                 break
+            if w.looped:
+                break
     return case, out
+
+
+class _Script:
+    """Run a directed script against the live implementation (same World / same ops as the generated traces)."""
+
+    def __init__(self, rng: Rng, profile: str, tweak=None):
+        self.case = gen_setup(rng)
+        self.case["profile"] = profile
+        if tweak:
+            tweak(self.case)
+        self.rec = Rec()
+        self.out = ["ok", "ok"] + ["ok"] * len(self.case["clients"])
+        self.dead = False
+
+    def emit(self, w: "World", op: list):
+        if self.dead:
+            return
+        self.case["ops"].append(op)
+        try:
+            self.out.append(w.do(op))
+        except Exception as e:  # noqa: BLE001
+            self.out.append(f"raised {type(e).__name__}: {str(e)[:120]}")
+            self.dead = True
+        if w.looped:
+            self.dead = True
+
+
+def gen_boundary_and_run(rng: Rng):
+    """`max_sessions` boundary: fill the table exactly, then one too many / a freed slot / a stopped-then-started or restarted
+    or power-cycled service / an uninstalled client / foreign disconnects / recovery from OVERWHELMED, in random order."""
+    def tweak(case):
+        case["max"] = rng.choice([1, 2, 2, 3, 3, 4])
+        for c in case["clients"]:
+            if rng.chance(5, 6):
+                c["pw"] = case["srv_pw"]
+    sc = _Script(rng, "boundary", tweak)
+    case = sc.case
+    n, m = len(case["clients"]), case["max"]
+    with instrumented(sc.rec):
+        w = World(case, sc.rec)
+        e = lambda op: sc.emit(w, op)   # noqa: E731
+        if rng.chance(1, 2):
+            e(["tick"])                  # the automatic backup at timestep 1 (needed to recover from OVERWHELMED by a restore)
+        for _ in range(m):
+            e(["connect", rng.below(n)])
+        segs = rng.shuffle(["over", "free", "free", "stopstart", "restart", "power", "recover", "uninstall", "native", "foreign", "below"])
+        for seg in segs[:rng.range(3, 6)]:
+            i = rng.below(n)
+            act = [j for j, h in enumerate(sc.rec.handles) if h.is_active]
+            if seg == "over":
+                e(["connect", i])
+                e(["hq", rng.choice(act), "SELECT"] if act else ["connect", i])
+            elif seg == "free":
+                if act:
+                    e(["hd", rng.choice(act)] if rng.chance(2, 3) else ["hq", rng.choice(act), "SELECT"])
+                e(["connect", i])
+                e(["connect", rng.below(n)])
+            elif seg == "stopstart":
+                e(["svc", rng.choice(["stop", "pause"])])
+                e(["connect", i])
+                e(["svc", "start"])
+                e(["svc", "resume"])
+                e(["connect", i])
+            elif seg == "restart":
+                e(["svc", "restart"])
+                for _ in range(case["restart"] + 1):
+                    e(["connect", i] if rng.chance(1, 3) else ["tick"])
+                e(["tick"])
+                e(["connect", i])
+            elif seg == "power":
+                e(["pow", 0, False])
+                for _ in range(case["durs"]["sDown"] + 1):
+                    e(["tick"])
+                e(["connect", i])
+                e(["pow", 0, True])
+                for _ in range(case["durs"]["sUp"] + 1):
+                    e(["tick"])
+                e(["connect", i])
+            elif seg == "recover":
+                if rng.chance(1, 2):
+                    e(["restore"])
+                else:
+                    e(["svc", "compromise"])
+                    e(["svc", "fix"])
+                    for _ in range(case["fix"] + 1):
+                        e(["tick"])
+                e(["connect", i])
+            elif seg == "uninstall":
+                e(["un", i])
+                e(["connect", rng.below(n)])
+                e(["in", i])
+                e(["cpw", i, case["srv_pw"]])
+                e(["run", i])
+                e(["connect", i])
+            elif seg == "native":
+                e(["nc", i])
+                e(["nq", i, "SELECT"])
+                e(["nd", i])
+                e(["connect", i])
+            elif seg == "foreign":
+                live = [w.rec.ids.index(c) for c in w.db._connections if c in w.rec.ids]
+                if live:
+                    e(["rd", i, rng.choice(live)])
+                e(["connect", rng.below(n)])
+            elif seg == "below":
+                if len(act) >= 1:
+                    e(["hd", act[0]])
+                if len(act) >= 2:
+                    e(["hd", act[1]])
+                e(["connect", i])
+    return case, sc.out
+
+
+def gen_cycles_and_run(rng: Rng):
+    """Repeated backup / damage / restore cycles: a leftover under downloads/ (kept, corrupted, planted, deleted), a fault on
+    the way to the backup (request or answer direction blocked, backup host off, its FTP server stopped, the FTP client on the
+    database host stopped / restarting / uninstalled), restore (directly or by a completing fix), the fault undone, restore."""
+    def tweak(case):
+        case["bkcfg"] = True
+        case["max"] = max(case["max"], 2)
+        case["clients"][0]["pw"] = case["srv_pw"]
+    sc = _Script(rng, "cycles", tweak)
+    case = sc.case
+    with instrumented(sc.rec):
+        w = World(case, sc.rec)
+        e = lambda op: sc.emit(w, op)   # noqa: E731
+        if rng.chance(1, 3):
+            e(["fcor"])   # a backup of data that is already damaged restores to damaged data
+        e(["tick"] if rng.chance(1, 2) else ["backup"])
+        if rng.chance(1, 4):
+            e(["frep"])
+        e(["connect", 0])
+        for _ in range(rng.range(2, 4)):
+            act = [j for j, h in enumerate(sc.rec.handles) if h.is_active]
+            dmg = rng.choice(["DELETE", "DELETE", "ENCRYPT", "fcor", "fdel", "fodel"])
+            if dmg in ("DELETE", "ENCRYPT"):
+                e(["hq", rng.choice(act), dmg] if act else ["connect", 0])
+            else:
+                e([dmg])
+            lo = rng.choice(["keep", "keep", "cor", "plant", "del", "fodel"])
+            if lo == "plant":
+                e(["dl", "plant", rng.choice(["GOOD", "CORRUPT", "COMPROMISED"])])
+            elif lo != "keep":
+                e(["dl", lo])
+            fault = rng.choice(["none", "none", "blk0", "blk1", "bkoff", "ftps", "ftpcstop", "ftpcrestart", "ftpcun", "bkdel"])
+            undo = []
+            if fault == "blk0":
+                e(["blk", 0, True]); undo = [["blk", 0, False]]
+            elif fault == "blk1":
+                e(["blk", 1, True]); undo = [["blk", 1, False]]
+            elif fault == "bkoff":
+                e(["pow", 1, False])
+                for _ in range(case["durs"]["bDown"] + rng.below(2)):
+                    e(["tick"])
+                undo = [["pow", 1, True]] + [["tick"]] * (case["durs"]["bUp"] + 1)
+            elif fault == "ftps":
+                e(["ftps", False]); undo = [["ftps", True]]
+            elif fault == "ftpcstop":
+                e(["adm", "ftpc", rng.choice(["stop", "pause", "disable"])])
+                undo = [["adm", "ftpc", "enable"], ["adm", "ftpc", "start"], ["adm", "ftpc", "resume"]]
+            elif fault == "ftpcrestart":
+                e(["adm", "ftpc", "restart"]); undo = [["tick"]] * 6
+            elif fault == "ftpcun":
+                e(["adm", "ftpcun"]); undo = [["adm", "ftpcin", rng.chance(1, 2)]]
+            elif fault == "bkdel":
+                e(["bkdel"]); undo = [["backup"]]
+            if rng.chance(2, 3):
+                e(["restore"])
+            else:
+                e(["svc", "fix"])
+                for _ in range(case["fix"] + 1):
+                    e(["tick"])
+            if act:
+                e(["hq", rng.choice(act), "SELECT"])
+            for op in undo:
+                e(list(op))
+            e(["restore"])
+            if act:
+                e(["hq", rng.choice(act), "SELECT"])
+    return case, sc.out
 
 
 def nontrivial(model: List[str]) -> bool:
